@@ -1,7 +1,7 @@
 (* C10  Airfoil analysis yields inscribed circles and recovers a known medial axis. *)
 From Coq Require Import ZArith Reals List Lra.
-From EG Require Import Num.Num Num.RNum Lib.Vec Model.Types Model.Airfoil.
-From EG Require Import Proofs.VecR Proofs.Airfoil.
+From EG Require Import Num.Num Num.RNum Lib.Vec Model.Types Model.Airfoil Model.Inscribed.
+From EG Require Import Proofs.VecR Proofs.Airfoil Proofs.Inscribed.
 Import ListNotations.
 Local Open Scope R_scope.
 
@@ -50,3 +50,24 @@ Theorem C10_tmax_fwd : forall (l l' : list St), tmax_fwd l = Ok l' ->
   exists f, tmax_fraction l = Ok f /\ ((f <= 1 / 2 /\ l' = l) \/ (1 / 2 < f /\ l' = reverse_inscribed_circles l)).
 Proof. exact tmax_fwd_spec. Qed.
 Print Assumptions C10_tmax_fwd.
+
+(* the core of the analysis, inscribed_from_spanning_ray (Model/Inscribed.v, compared with the implementation on every run):
+   the bisection ends for every section, every spanning ray and every positive tolerance ... *)
+Theorem C10_inscribed_terminates : forall (pts : list (@V2 RNum)) (r : @sray RNum) (tol : R), (0 < tol)%R ->
+  exists fuel, @inscribed RNum fuel pts r tol <> None.
+Proof. exact inscribed_terminates. Qed.
+Print Assumptions C10_inscribed_terminates.
+
+(* ... and returns an inscribed circle within the tolerance: both contacts are points of the section, no point of the section is
+   nearer to the centre than the radius less the tolerance, and the contacts are at most the radius plus the tolerance from it -
+   the distance from the centre to the section equals the radius within the analysis tolerance (C02's closest-point
+   specification is the section query) *)
+Theorem C10_inscribed_spec : forall (pts : list (@V2 RNum)) (r : @sray RNum) (tol : R) (fuel : nat) (c : @V2 RNum) (rad : R) (cp cn : @V2 RNum),
+  (2 <= length pts)%nat -> (0 <= tol)%R ->
+  on_poly pts (@ray_at RNum r 0%R) -> on_poly pts (@ray_at RNum r 1%R) ->
+  @inscribed RNum fuel pts r tol = Some (c, rad, cp, cn) ->
+  on_poly pts cp /\ on_poly pts cn /\
+  (forall y, on_poly pts y -> (rad - tol <= dist2 c y)%R) /\
+  (dist2 c cp <= rad + tol)%R /\ (dist2 c cn <= rad + tol)%R.
+Proof. exact inscribed_spec. Qed.
+Print Assumptions C10_inscribed_spec.
